@@ -219,6 +219,18 @@ let run_op (line : string) =
        (match add_targeted_event beh (ni t) !w with
         | ROk (id, w') -> w := w'; push_unique teids id; Printf.printf "R id %s\n" (skey id)
         | RFail (f, w') -> w := w'; Printf.printf "R %s\n" (sfail f))
+   | "addgeu" -> let n = next_int () in
+       (match add_global_event beh rFUEL (ni (1000 + n)) !w with
+        | ROk (id, w') -> w := w'; push_unique geids id; Printf.printf "R id %s\n" (skey id)
+        | RFail (f, w') -> w := w'; Printf.printf "R %s\n" (sfail f))
+   | "addteu" -> let n = next_int () in
+       (match add_targeted_event beh (ni (1000 + n)) !w with
+        | ROk (id, w') -> w := w'; push_unique teids id; Printf.printf "R id %s\n" (skey id)
+        | RFail (f, w') -> w := w'; Printf.printf "R %s\n" (sfail f))
+   | "addcu" -> let n = next_int () in
+       (match add_component beh (ni (1000 + n)) !w with
+        | ROk (id, w') -> w := w'; push_unique cids id; Printf.printf "R id %s\n" (skey id)
+        | RFail (f, w') -> w := w'; Printf.printf "R %s\n" (sfail f))
    | "rmge" -> let j = next_int () in
        (match nth_mod !geids j with
         | None -> print_string "R skip\n"
